@@ -653,6 +653,31 @@ pub(crate) fn cc_finalize_again_panics_inside_collection_finalizer_destructor() 
     core::mem::forget(h);
 }
 
+/// REAL `finalize_again` under any collector flag, through the emulated unwind out of its panic (H5):
+/// the object (both words: finalized bit, counts, mark), the buffer and the collector flags are unchanged.
+//@ C12 C05 | complete | deciding | feat=full,finweak | fn=Cc::finalize_again | timeout=600
+#[cfg(feature = "finalization")]
+#[kani::proof]
+#[kani::unwind(9)]
+pub(crate) fn cc_finalize_again_refused_leaves_object_unchanged() {
+    let mut h = mk_node(0);
+    let x = raw_of(&h);
+    let in_pc: bool = kani::any();
+    if in_pc { crate::cc::add_to_list(x); }
+    let (t0, c0) = havoc_idle(x, in_pc);
+    let (fc, ff, fd): (bool, bool, bool) = (kani::any(), kani::any(), kani::any());
+    kani::assume(fc || ff || fd);
+    state(|s| sp::set_flags(s, fc, ff, fd));
+    let sn0 = state(|s| sp::snap(s));
+    g().emulate_limit_panics = true;
+    h.finalize_again();
+    g().emulate_limit_panics = false;
+    kani::assert(ghost::catch(), "Cc::finalize_again::post::panics_inside_collection_finalizer_destructor");
+    kani::assert(words_of(x) == (t0, c0), "Cc::finalize_again::unwind::object_unchanged_after_the_caught_panic");
+    kani::assert(pc_view().1 == in_pc as usize && state(|s| sp::snap(s)) == sn0 && ccp::cb_counts() == (0, 0, 0), "Cc::finalize_again::unwind::buffer_and_collector_state_unchanged");
+    core::mem::forget(h);
+}
+
 // ------------------------------------------------------------------------------------------------
 // Cc::new_cyclic (C14), normal path
 // ------------------------------------------------------------------------------------------------
